@@ -79,6 +79,10 @@ func genGoFile(r *proto.Rng, stream string, idx int) string {
 	b.WriteString("package semantics\n\n")
 	names := []string{"Add", "Sub2", "X", "loopBreak", "A1b2", "Z9"}
 	nf := r.Intn(7)
+	if r.Intn(8) == 0 {
+		// a file with many tests (names of varying length): the generated files grow past any buffer size
+		nf = 40 + r.Intn(80)
+	}
 	for i := 0; i < nf; i++ {
 		base := fmt.Sprintf("%s%d%d", proto.Pick(r, names), idx, i)
 		switch r.Intn(14) {
